@@ -56,6 +56,9 @@ fn gen_headers(rng: &mut Rng, pairs: &[(String, String)]) -> Vec<(&'static str, 
         v.push(("scheme-upper", Some(format!("BASIC {e}").into_bytes())));
         v.push(("two-spaces", Some(format!("Basic  {e}").into_bytes())));
         v.push(("no-space", Some(format!("Basic{e}").into_bytes())));
+        v.push(("no-scheme", Some(e.clone().into_bytes())));
+        v.push(("scheme-twice", Some(format!("Basic Basic {e}").into_bytes())));
+        v.push(("scheme-thrice", Some(format!("Basic Basic Basic {e}").into_bytes())));
         v.push(("trailing-space", Some(format!("Basic {e} ").into_bytes())));
         v.push(("other-scheme", Some(format!("Bearer {e}").into_bytes())));
         v.push(("suffix-junk", Some(format!("Basic {e}AAAA").into_bytes())));
